@@ -120,6 +120,8 @@ class Models:
                 return self.mkbool(other.isnone)
             return False
         if isinstance(l, SOpt):
+            if ip.path.guards and r is None:
+                return self.mkbool(l.isnone)        # as a term: no fork inside a lazily evaluated sequence element
             if ip.path.branch(l.isnone, "is None"):
                 return self.identical(ip, None, r)
             return self.identical(ip, l.val, r)
@@ -1326,6 +1328,12 @@ class Models:
         return SpecFn(None, "iterator", meta={"iterable": a[0]})
 
     def b_any(self, ip, a, kw, node):
+        it = a[0]
+        if isinstance(it, SSeq) and not isinstance(it.n, int):
+            h = getattr(ip.reg, "any_hook", None)
+            if h is None:
+                raise Unsupported("any() over symbolic-length iterable")
+            return h(ip, it, node)
         items = ip.concrete_iter(a[0])
         if items is None:
             raise Unsupported("any() over symbolic-length iterable")
